@@ -38,6 +38,13 @@ Fixpoint rp_for (cfg : list rprefix) (ip : N) : option rprefix :=
   | r :: t => if prefix_contains (rp_addr r) (rp_bits r) ip then Some r else rp_for t ip
   end.
 
+(* configurations as GetRoutablePrefixesFor and the default produce them: the routing prefix is at
+   least as specific as the base prefix it is configured for (hypothesis of TablePrefix.v,
+   evaluated on every configuration the harness uses) *)
+Definition rp_ok (rp : rprefix) : bool :=
+  (0 <? rp_rbits rp) && (rp_bits rp <=? rp_rbits rp) && (rp_rbits rp <=? 128).
+Definition cfg_ok (cfg : list rprefix) : bool := forallb rp_ok cfg.
+
 (* ---------- comparison ---------- *)
 Definition cmpN (a b : N) : Z := match N.compare a b with Lt => (-1)%Z | Eq => 0%Z | Gt => 1%Z end.
 
@@ -122,6 +129,73 @@ Definition minute : Z := 60000%Z.
 
 (* returns (table, added) or an error *)
 Definition add_route (cfg : list rprefix) (now : Z) (t : list entry) (e0 : entry) : res (list entry * bool) :=
+  match rp_for cfg (e_dst e0) with
+  | None => Err 1                                                   (* not routable by this table *)
+  | Some rp =>
+    (* defaults *)
+    let exp1 := if (0 <? rp_ttl rp)%Z && negb (e_source e0 =? src_peer)
+                then let te := (now + rp_ttl rp)%Z in
+                     if (e_expires e0 =? 0)%Z || (te <? e_expires e0)%Z then te else e_expires e0
+                else e_expires e0 in
+    let '(pa, pb) := if 0 <? rp_rbits rp then (mask (e_dst e0) (rp_rbits rp), rp_rbits rp) else (e_paddr e0, e_pbits e0) in
+    if negb ((e_source e0 =? src_gossip) || (e_source e0 =? src_peer) || (e_source e0 =? src_discovered)) then Err 2
+    else if (e_nexthop e0 =? 0) then Err 3                          (* next hop invalid/missing (0 = zero Addr) *)
+    else if (pb =? 0) && (pa =? 0) then Err 4                       (* routing prefix invalid *)
+    else if negb (e_source e0 =? src_peer) && Nat.ltb (length (e_path e0)) 2 then Err 5
+    else
+      let chk := if negb (e_source e0 =? src_peer) then
+                   if (exp1 =? 0)%Z then Err 6
+                   else if (hour <? now - exp1)%Z then Err 7
+                   else if (exp1 - now <? 10 * minute)%Z then Ok (now + 10 * minute)%Z
+                   else Ok exp1
+                 else Ok exp1 in
+      match chk with
+      | Err c => Err c
+      | Panic => Panic
+      | Ok exp2 =>
+        match build_blocks (labels_of (e_path e0)) with
+        | Err _ => Err 8
+        | Panic => Panic
+        | Ok _ =>
+          let e := mkEntry (e_dst e0) pa pb (e_nexthop e0) (e_path e0) (e_stub e0) (e_source e0) exp2
+                           (calc_thops (e_path e0)) (calc_tdelay (e_path e0) (e_tdelay e0)) in
+          let '(s, en) := dst_section t (e_dst e) in
+          if Nat.leb en s then
+            (* new destination *)
+            let full := if e_source e =? src_gossip
+                        then let '(ps, pe) := prefix_section t pa pb in Nat.ltb (rp_limit rp * 2) (pe - ps)
+                        else false in
+            if full then Ok (t, false)
+            else Ok (insert_at t (fst (bsearch std_cmp t e)) e, true)
+          else
+            let sec := firstn (en - s) (skipn s t) in
+            (* fix D21: the first gossip route to a known destination is subject to the per-prefix
+               admission like a new destination *)
+            if (e_source e =? src_gossip) && negb (existsb (fun x => e_source x =? src_gossip) sec) &&
+               (let '(ps, pe) := prefix_section t pa pb in Nat.ltb (rp_limit rp * 2) (pe - ps))
+            then Ok (t, false) else
+            (* same route already present? *)
+            let fix find_eq (l : list entry) (i : nat) : option nat :=
+              match l with [] => None | x :: r => if route_equals x e then Some i else find_eq r (S i) end in
+            match find_eq sec s with
+            | Some i => Ok (sort_section (replace_at t i e) s en, true)
+            | None =>
+              if Nat.ltb (en - s) 3 || (e_source e =? src_peer)
+              then Ok (insert_at t (fst (bsearch std_cmp t e)) e, true)
+              else match nth_error t (s + 2) with
+                   | Some third => if (std_cmp e third <? 0)%Z
+                                   then Ok (sort_section (replace_at t (s + 2) e) s en, true)
+                                   else Ok (t, false)
+                   | None => Panic
+                   end
+            end
+        end
+      end
+  end.
+
+(* AddRoute as it stood before fix D21: only NEW destinations were subject to the per-prefix
+   admission, so gossip routes to destinations known through a direct-peer route were unlimited *)
+Definition add_route_pinned (cfg : list rprefix) (now : Z) (t : list entry) (e0 : entry) : res (list entry * bool) :=
   match rp_for cfg (e_dst e0) with
   | None => Err 1                                                   (* not routable by this table *)
   | Some rp =>
